@@ -1,11 +1,18 @@
 """Shared harness of C02 (line coverage truth) and C03 (branch coverage truth).
 
 One *case* = {"module": pygen module model, "calls": [pygen calls], "metrics": ["LINE", "BRANCH", ...]}.
-``evaluate_case(case, want)`` runs ``_child`` in a forked process (tracer, registries, ``sys.modules``,
-``sys.meta_path`` and ``sys.monitoring`` state can therefore not leak between examples; a wrongly rewritten code
-object that kills the interpreter is reported as ``interpreter-crash``) and turns its JSON result into an Outcome.
 
-Inside the child:
+Isolation.  ``_child(case, want, scratch)`` evaluates one case and leaves nothing behind: it creates its own
+``SubjectProperties`` + tracer, a uniquely named module file, its own import hook and monitoring tool id, and removes
+module, hook, ``sys.path`` entry, tool id and files in ``finally``.  It is run
+ * by ``run_shard`` (the campaign of a shard): in-process inside ONE forked, supervised worker per shard -- a worker killed
+   by a signal (a wrongly rewritten code object can crash CPython; seen: SIGSEGV) is turned into the failure
+   ``interpreter-crash|signal|…`` for the case it was working on, a worker that makes no progress for CASE_TIMEOUT seconds
+   into the inconclusive verdict ``case-timeout``; the campaign is then replayed by a fresh worker;
+ * by ``evaluate_case`` (``./check --replay``, replay files of known findings): in a forked child per case (``vf.iso.forked``).
+(Fork-per-example for the whole campaign was measured at 0.5-5 s per fork on a busy machine vs. 0.2 s for the case itself.)
+
+``_child``:
  1. the module source is written to ``<scratch>/vfsut_<hash>.py`` and compiled once;
  2. **ground truth**: that code object is executed, and every call performed, under ``vf.oracle.monitor.Monitor``
     restricted to the module's own code objects (LINE / INSTRUCTION / BRANCH / PY_START / CALL events);
